@@ -381,3 +381,8 @@ def c_sampling_cache(ctx, it, cfg):
     ctx.prove('state-variables-of-the-returned-set-carry-the-queried-temperature', cs.updated is not None and eq(cs.updated[2].get(3), T))
     if cfg['filled']:
         ctx.prove('canary/always-recomputed', len(made) == 1, expect='refuted')
+
+
+# evaluating a size alone or inside an array gives the same interfacial compositions (growth law contract shared with C12)
+from . import c12 as _c12
+REG.contracts.append(_c12.c_curv_growth.contract)
